@@ -158,6 +158,9 @@ func isBufferType(t types.Type) bool {
 type shaper struct {
 	p     *Program
 	depth int
+	// function-typed parameters of a printing helper bound to a method name at the call
+	// being classified (`printType func(SessionType) string` bound to SessionType.String)
+	funcBind map[*ssa.Parameter]string
 }
 
 // Shape computes the string shape of v. ok=false means the shape could not be built
@@ -192,6 +195,9 @@ func (s *shaper) Shape(v ssa.Value) ([]Atom, error) {
 		}
 		if com.IsInvoke() {
 			return []Atom{{Kind: AtomCall, Text: com.Method.Name(), Arg: descValue(com.Value), Val: com.Value, Call: x}}, nil
+		}
+		if prm, ok := com.Value.(*ssa.Parameter); ok && len(com.Args) == 1 && s.funcBind[prm] != "" {
+			return []Atom{{Kind: AtomCall, Text: s.funcBind[prm], Arg: descValue(com.Args[0]), Val: com.Args[0], Call: x}}, nil
 		}
 		if sc := com.StaticCallee(); sc != nil && sc.String() == "fmt.Sprintf" && len(com.Args) == 2 {
 			if as, ok := s.sprintfShape(com.Args[0], com.Args[1]); ok {
